@@ -86,6 +86,21 @@ _replacement_map: Dict[Callable[..., Any], Callable[..., Any]] = {
 }
 
 
+# (names of the three leading tensor args, names of any further positional args)
+_arg_names: Dict[Callable[..., Any], Tuple[Tuple[str, ...], Tuple[str, ...]]] = {
+    F.linear: (("input", "weight", "bias"), ()),
+    U.linear: (("input", "weight", "bias"), ()),
+    F.scaled_dot_product_attention: (
+        ("query", "key", "value"),
+        ("attn_mask", "dropout_p", "is_causal", "scale", "enable_gqa"),
+    ),
+    U.scaled_dot_product_attention: (
+        ("query", "key", "value"),
+        ("attn_mask", "dropout_p", "is_causal", "mult"),
+    ),
+}
+
+
 def _replace_with_quantised(
     graph: Graph,
     node: Node,
@@ -95,8 +110,17 @@ def _replace_with_quantised(
     # Ideally we'd pass the formats as kwargs, but it currently causes a torch fx bug.
     # This workaround will suffice for now...
     args = [*node.args]
-    if len(node.args) == 2:  # pragma: no cover
-        args.append(None)
+    kwargs = dict(node.kwargs)
+    # The three leading (tensor) arguments may have been given by keyword, or the
+    # optional bias omitted: make them positional, as the formats come next
+    tensor_arg_names, trailing_arg_names = _arg_names[node.target]
+    for i, name in enumerate(tensor_arg_names):
+        if len(args) == i:
+            args.append(kwargs.pop(name, None))
+    # The quantised attention functions take everything else by keyword
+    if trailing_arg_names:
+        kwargs.update(zip(trailing_arg_names, args[3:]))
+        args = args[:3]
     # Breaks when I pass in FPFormat objects, so convert to tuple and back
     args = (
         args[:3] + [format_to_tuple(fwd_format), format_to_tuple(bwd_format)] + args[3:]
@@ -105,7 +129,9 @@ def _replace_with_quantised(
     assert callable(node.target)
     quantised_fn = _replacement_map[node.target]
     logger.info("quantising function: %s", node)
-    replace_node_with_function(graph, node, quantised_fn, args=tuple(args))
+    replace_node_with_function(
+        graph, node, quantised_fn, args=tuple(args), kwargs=kwargs
+    )
 
 
 def _quantisation_backend(fwd_format: FPFormat, bwd_format: FPFormat) -> Backend:
